@@ -179,7 +179,9 @@ fn gen_adjust_x_for_upper_boundary(
         let correction_delta = correction_delta_for_float_type(float_type);
         quote! {
             if x >= #upper_value {
-                x - #correction_delta
+                // The fixed delta is smaller than the distance between neighbouring floats
+                // for larger magnitudes, so scale it with the magnitude of `x`.
+                x - (x.abs() * #float_type::EPSILON).max(#correction_delta)
             } else {
                 x
             }
@@ -200,7 +202,9 @@ fn gen_adjust_x_for_lower_boundary(
             if x <= #lower_value {
                 // Since there is no upper boundary, we are free to add any positive value here
                 // to adjust so we can satisfy the exclusive lower boundary.
-                x + #correction_delta
+                // The fixed delta is smaller than the distance between neighbouring floats
+                // for larger magnitudes, so scale it with the magnitude of `x`.
+                x + (x.abs() * #float_type::EPSILON).max(#correction_delta)
             } else {
                 x
             }
